@@ -345,6 +345,107 @@ fn run_many(out: &mut WorkerOut) {
     out.nontrivial.insert(hash64("many"));
 }
 
+const HOSTILE: &[&str] = &["re-enters-describe", "re-enters-registration", "panics-once"];
+
+/// Stage "hostile": a descriptor for REGS[i] that (a) itself calls parse + describe(), (b)
+/// itself registers another descriptor, or (c) panics the first time it is called. The outer
+/// describe() must return the marker rendering (a, b) / the panic must reach the caller as an
+/// unwind (c); afterwards the normal marker is registered over it and every program must
+/// render as the reference says — nothing may be left locked, poisoned or half updated.
+fn run_hostile(i: usize, mode: &str, progs: &[String], out: &mut WorkerOut) {
+    use std::sync::atomic::{AtomicBool, Ordering};
+    let (kind, name) = REGS[i];
+    let n = name.to_string();
+    let case = format!("hostile|{} descriptor for {:?}", mode, REGS[i]);
+    static FIRED: AtomicBool = AtomicBool::new(false);
+    FIRED.store(false, Ordering::SeqCst);
+    let mode_s = mode.to_string();
+    // what the hostile descriptor does before it answers like the normal marker
+    let act = move || {
+        match mode_s.as_str() {
+            "re-enters-describe" => {
+                // (a program none of the registrations of REGS applies to)
+                let inner = parse_expression("g(1)").map(|t| t.describe());
+                assert_eq!(inner.ok().as_deref(), Some("g(1)"), "inner describe()");
+            }
+            "re-enters-registration" => {
+                DescriptorManager::new().set_reference_descriptor("zzz".to_string(), Arc::new(|n| format!("<Z:{}>", n)));
+            }
+            _ => {
+                if !FIRED.swap(true, Ordering::SeqCst) {
+                    panic!("injected panic in a descriptor");
+                }
+            }
+        }
+    };
+    let mut m = DescriptorManager::new();
+    let a = act.clone();
+    match kind {
+        "unary" => m.set_unary_descriptor(n.clone(), Arc::new(move |op, rhs| { a(); mark(format!("<U:{}:{}|{}>", n, op, rhs)) })),
+        "binary" => m.set_binary_descriptor(n.clone(), Arc::new(move |op, l, r| { a(); mark(format!("<B:{}:{}|{}|{}>", n, op, l, r)) })),
+        "postfix" => m.set_postfix_descriptor(n.clone(), Arc::new(move |lhs, op| { a(); mark(format!("<P:{}:{}|{}>", n, op, lhs)) })),
+        "ternary" => m.set_ternary_descriptor(Arc::new(move |c, x, y| { a(); mark(format!("<T|{}|{}|{}>", c, x, y)) })),
+        "function" => m.set_function_descriptor(n.clone(), Arc::new(move |name, args| { a(); mark(format!("<F:{}:{}|{}>", n, name, args.join("|"))) })),
+        "reference" => m.set_reference_descriptor(n.clone(), Arc::new(move |name| { a(); mark(format!("<R:{}:{}>", n, name)) })),
+        "list" => m.set_list_descriptor(Arc::new(move |items| { a(); mark(format!("<L|{}>", items.join("|"))) })),
+        "map" => m.set_map_descriptor(Arc::new(move |items| { a(); mark(format!("<M|{}>", items.iter().map(|(k, v)| format!("{}={}", k, v)).collect::<Vec<_>>().join("|"))) })),
+        _ => m.set_chain_descriptor(Arc::new(move |items| { a(); mark(format!("<C|{}>", items.join("|"))) })),
+    }
+    let cfg = 1u32 << i;
+    expression_engine::verif_hooks::sync::clear_self_deadlock();
+    if mode == "panics-once" {
+        // find a program that uses the descriptor: the first describe() that panics
+        let mut seen = false;
+        for p in progs {
+            let r = guarded(|| parse_expression(p).map(|t| t.describe()).map_err(|e| format!("{:?}", e)));
+            out.evals += 1;
+            if let Res::Panic(msg) = r {
+                if msg.contains("injected panic in a descriptor") {
+                    seen = true;
+                    out.outcomes.insert("descriptor-panic-propagated".into());
+                } else {
+                    out.fail(format!("hostile:{}:unexpected-panic:{}", mode, kind), case.clone(), msg);
+                    return;
+                }
+                break;
+            }
+        }
+        if !seen {
+            out.fail(format!("hostile:{}:descriptor-never-called:{}", mode, kind), case.clone(), "no program used the registered descriptor");
+            return;
+        }
+    }
+    // every program renders as the reference says (the hostile descriptor answers like the marker)
+    let mut tmp = WorkerOut::default();
+    check_config_installed(cfg, progs, "hostile", &mut tmp);
+    if expression_engine::verif_hooks::sync::self_deadlock_seen() {
+        out.fail(format!("hostile:{}:self-deadlock:{}", mode, kind), case.clone(), "a descriptor that re-entered the engine tried to lock a mutex its own thread holds");
+    }
+    let fails = std::mem::take(&mut tmp.fails);
+    out.merge(tmp);
+    for (k, (f, _)) in fails {
+        out.fail(format!("hostile:{}:{}", mode, k), case.clone(), format!("{}: {}", f.case, f.detail));
+    }
+    // and the normal marker can be registered over it
+    let r = guarded(|| {
+        install(cfg, false);
+        Ok(())
+    });
+    if let Res::Panic(msg) = r {
+        out.fail(format!("hostile:{}:registration-afterwards-panics:{}", mode, kind), case, msg);
+        return;
+    }
+    let mut tmp = WorkerOut::default();
+    check_config_installed(cfg, progs, "hostile", &mut tmp);
+    let fails = std::mem::take(&mut tmp.fails);
+    out.merge(tmp);
+    for (k, (f, _)) in fails {
+        out.fail(format!("hostile:{}:afterwards:{}", mode, k), format!("hostile|{} descriptor for {:?}, then the normal one", mode, REGS[i]), format!("{}: {}", f.case, f.detail));
+    }
+    out.count("states", 1);
+    out.nontrivial.insert(hash64(&format!("hostile{}{}", i, mode)));
+}
+
 fn configs(_tier: Tier) -> Vec<u32> {
     (0..(1u32 << REGS.len())).collect()
 }
@@ -366,6 +467,12 @@ fn root_kind(a: &Ast) -> String {
 
 fn check_config(cfg: u32, progs: &[String], stage: &str, clear: bool, out: &mut WorkerOut) {
     install(cfg, clear);
+    check_config_installed(cfg, progs, stage, out);
+}
+
+/// compare every program's describe() with the reference rendering for configuration `cfg`
+/// (whatever is registered in the engine right now)
+fn check_config_installed(cfg: u32, progs: &[String], stage: &str, out: &mut WorkerOut) {
     for p in progs {
         out.evals += 1;
         let r = guarded(|| {
@@ -417,6 +524,7 @@ impl Prop for C18 {
                 Stage { name: "reregister".into(), len: REGS.len() as u64, chunk: 1, timeout: Duration::from_secs(120), what: "each (kind, name) registered twice with different descriptors, no clear in between: the later one must be used (fresh process each)".into() },
                 Stage { name: "styles".into(), len: style_cases().len() as u64, chunk: 8, timeout: Duration::from_secs(600), what: "marker descriptors that return the empty string, or text made of the separators the default renderings use (',' ';' ':'): every configuration of <= 2 registrations and the full one".into() },
                 Stage { name: "many".into(), len: 1, chunk: 1, timeout: Duration::from_secs(300), what: "a registry growing to 70 entries (35 names x reference / function descriptors) one registration at a time, then every entry replaced; after every step each name is described as a reference and as a call (fresh process)".into() },
+                Stage { name: "hostile".into(), len: (REGS.len() * HOSTILE.len()) as u64, chunk: 1, timeout: Duration::from_secs(60), what: "for each (kind, name): a descriptor that itself calls parse + describe(), that itself registers a descriptor, or that panics on its first call (fresh process each); renderings, and renderings after the normal descriptor is registered over it, must equal the reference".into() },
                 Stage { name: "fresh".into(), len: (REGS.len() + 2) as u64, chunk: 1, timeout: Duration::from_secs(120), what: "the empty, every singleton and the full configuration, each in a fresh process without the clear hook".into() },
             ],
             rule: format!(
@@ -463,7 +571,14 @@ impl Prop for C18 {
             run_many(out);
             return;
         }
-        let stage = if stage == 5 { 2 } else if stage >= 2 { stage - 1 } else { stage };
+        if stage == 5 {
+            for i in a..b {
+                out.at(i);
+                run_hostile(i as usize / HOSTILE.len(), HOSTILE[i as usize % HOSTILE.len()], &progs, out);
+            }
+            return;
+        }
+        let stage = if stage == 6 { 2 } else if stage >= 2 { stage - 1 } else { stage };
         if stage == 1 {
             for i in a..b {
                 out.at(i);
@@ -516,6 +631,8 @@ impl Prop for C18 {
             format!("style={} config={:#06x}", style, cfg)
         } else if stage == 4 {
             "70 registrations one after the other".to_string()
+        } else if stage == 5 {
+            format!("{} descriptor for {:?}", HOSTILE[i as usize % HOSTILE.len()], REGS[i as usize / HOSTILE.len()])
         } else {
             format!("fresh {}", i)
         }
